@@ -39,7 +39,7 @@ def main():
                 print(sid, 'PATCH DOES NOT APPLY'); continue
             entry = {}
             for p in props:
-                env = dict(os.environ, SSJ_REPO=wt, VERIF_SEED=os.environ.get('VERIF_SEED', '0'))
+                env = dict(os.environ, SSJ_REPO=wt, SSJ_EVIDENCE_DIR=os.path.join(scratch_root, 'evidence'), VERIF_SEED=os.environ.get('VERIF_SEED', '0'))
                 r = run([os.path.join(VERIF, 'tools', 'check.py'), p, 'quick'], env=env, cwd=VERIF)
                 lines = [l for l in r.stdout.splitlines() if not l.startswith('KNOWN-FINDING')]
                 vio = [i for i, l in enumerate(lines) if l.startswith('VIOLATION')]
